@@ -6,6 +6,7 @@ fault escaped the student program or was swallowed by the student's own ``try``,
 its I/O event log is what the C15 model is computed from (never pedal's own record).
 """
 import builtins
+import io
 import sys
 import types
 
@@ -66,6 +67,8 @@ def canon(value, depth=0, student_files=('answer.py', 'helper.py')):
         return ('dict', tuple((canon(k, depth + 1), canon(v, depth + 1)) for k, v in value.items()))
     if t is range:
         return ('range', (value.start, value.stop, value.step))
+    if isinstance(value, io.IOBase):
+        return ('file-object',)        # a handle, not data: pedal serves submission files from memory (StringIO)
     if isinstance(value, types.ModuleType):
         return ('module', value.__name__)
     if isinstance(value, type):
